@@ -226,7 +226,7 @@ func vpC11DuplicateVote() {
 		total = vp.Int64("ev-total")
 		vp.Assume(total != e.vals.TotalVotingPower())
 	case 8:
-		evTime = ts.Add(time.Second)
+		evTime = ts.Add([]time.Duration{time.Second, time.Nanosecond, -time.Nanosecond, 999 * time.Millisecond}[vp.Choice("ev-time-skew", 4)])
 	case 9:
 		keyB = ed25519.GenPrivKeyFromSecret([]byte("stranger")) // B signed by a key that is not the validator's, under the validator's address
 	}
@@ -455,7 +455,7 @@ func VP_C11_LightClientAttack() {
 		vp.Assume(t != ev.TotalVotingPower)
 		ev.TotalVotingPower = t
 	case 7:
-		ev.Timestamp = ev.Timestamp.Add(time.Second)
+		ev.Timestamp = ev.Timestamp.Add([]time.Duration{time.Second, time.Nanosecond, -time.Nanosecond, 999 * time.Millisecond}[vp.Choice("ev-time-skew", 4)])
 	case 8:
 		ev.ByzantineValidators = []*types.Validator{v0, v1, v0.Copy()}
 	case 9:
